@@ -157,6 +157,12 @@ class URLInfo(object):
         info = URLInfo()
         info.encoding = encoding
 
+        if not _is_ascii_compatible(encoding):
+            # UTF-16 and UTF-32 documents: percent-encoding those bytes gives
+            # %00 everywhere, a path without a leading slash and raw spaces.
+            # The URL standard encodes such documents' URLs as UTF-8.
+            encoding = 'utf-8'
+
         if scheme not in RELATIVE_SCHEME_DEFAULT_PORTS:
             info.raw = url
             info.scheme = scheme
@@ -420,6 +426,16 @@ class URLInfo(object):
 
     def __ne__(self, other):
         return self.raw != other.raw
+
+
+@functools.lru_cache()
+def _is_ascii_compatible(encoding):
+    '''Return whether the codec encodes ASCII text to the same bytes.'''
+    try:
+        return 'az09/?#%. '.encode(encoding) == b'az09/?#%. '
+    except LookupError:
+        # Unknown codec: reported when the text is encoded, as before.
+        return True
 
 
 def parse_url_or_log(url, encoding='utf-8'):
